@@ -77,7 +77,7 @@ class LeanDriver:
         else:
             cmd = ['lake', 'env', 'lean', '--run', 'Driver/Main.lean']
         p = subprocess.run(cmd, input=data.encode('utf-8'), stdout=subprocess.PIPE, stderr=subprocess.PIPE,
-                           cwd=LEAN_DIR)
+                           cwd=LEAN_DIR, timeout=900)
         out = p.stdout.decode('utf-8').split('\n')
         if out and out[-1] == '':
             out.pop()
